@@ -5,11 +5,14 @@ THEOREMS = [
     "C18_cap", "C18_monotone", "C18_reaches_ceiling", "C18_floor",
     "C18_budget", "C18_published_trace_ok", "C18_start_clamped",
     "C18_estimated_start_clamped", "C18_float_scalings_monotone", "C18_topup",
+    "C18_set_start_max", "C18_retry_start_floor", "C18_retry_monotone",
+    "C18_retry_monotone_refuted",
 ]
 MODULE = "LV.Sweep.Props"
 TARGETS = ["theories/Sweep/Props.vo", "theories/Sweep/Exec.vo", "theories/Sweep/Examples.vo",
            "theories/Sweep/GenBridge.vo"]
-WARM = [{"pkg": "sweep", "files": ["sweep/verif_fee_test.go"]}]
+HARNESS = ["sweep/verif_fee_test.go", "sweep/verif_sweeper_test.go"]
+WARM = [{"pkg": "sweep", "files": HARNESS}]
 IMPORTS = ("From Coq Require Import List ZArith.\nImport ListNotations.\n"
            "From LV Require Import Sweep.Model Sweep.Exec.\n")
 
@@ -82,7 +85,8 @@ def case_term(c):
             bl(c["after"]), b(c["need1"]), z(c["budget"]))
     if k == "pub":
         e0 = c["events"][0]
-        published = e0.get("event") == "Published"
+        # a tx was handed to PublishTransaction (whatever the wallet answered)
+        published = bool(e0.get("published"))
         ierr = 0 if published else e0.get("reserr", 0)
         evs = []
         for e in c["events"][1:]:
@@ -95,7 +99,40 @@ def case_term(c):
             zl(e0["verdicts"]), z(ierr), otx_opt(e0["published"]),
             z(e0.get("rate", 0)), z(e0.get("pos", 0)), z(e0.get("recfee", 0)),
             "; ".join(evs))
+    if k == "sw":
+        reqs, fails = sw_terms(c)
+        return "CSw [%s] [%s]" % (
+            "; ".join("([%s], %s)" % ("; ".join(zopt(x) for x in st), zopt(o)) for st, o in reqs),
+            "; ".join("(%s, %s)" % (z(r), zopt(o)) for r, o in fails))
     raise ValueError(k)
+
+
+def sw_terms(c):
+    """(requests, failures) of a composed history for the model comparison:
+    per BumpRequest the starting rates stored on its inputs and the request's
+    StartingFeeRate; per input whose LAST bump result in a block was TxFailed
+    the result's fee rate and the starting rate stored on the input after it."""
+    reqs, fails = [], []
+    req_ins = {}
+    for b in c["blocks"]:
+        for q in b["reqs"] or []:
+            reqs.append((q["in_starts"], q["start"]))
+            req_ins[q["id"]] = q["ins"]
+        last = {}
+        for r in b["results"] or []:
+            for i in req_ins.get(r["id"], []):
+                if i >= 0:
+                    last[i] = r
+        # a later request of the same block overrides the picture: skip those
+        later = {}
+        for q in b["reqs"] or []:
+            for i in q["ins"]:
+                later[i] = q["id"]
+        stored = {x["i"]: x["start"] for x in b["inputs"] or []}
+        for i, r in sorted(last.items()):
+            if r["event"] == "Failed" and later.get(i, -1) <= r["id"] and i in stored:
+                fails.append((r["rate"], stored[i]))
+    return reqs, fails
 
 
 # ------------------------------------------- predicates on the impl's trace
@@ -221,12 +258,20 @@ def pred_set(c):
 
 
 def pred_pub(c):
-    """Returns the list of failures (no excused input class, see pred_ff)."""
+    """Returns the list of failures (no excused input class, see pred_ff).
+    Rows come from vPubCase (the TxPublisher driven directly) and from the
+    composed sweeper histories ("via": "sweeper": every BumpRequest the real
+    UtxoSweeper made).  Every tx handed to PublishTransaction is checked at the
+    fee function rate in force at that moment."""
     fails = []
-    budget, maxrate = c["budget"], c["maxrate"]
+    budget, maxrate, relay = c["budget"], c["maxrate"], c["relay"]
     ceiling = min(go_mulf64_1000_over(budget, c["weight"]), maxrate)
     start_sup = c["start"]
     conf0 = max(0, c["deadline"] - c["h0"])
+    # the relay floor binds the estimator path and every caller that supplies a
+    # start >= floor; the composed generator only offers None / 0 / >= floor, so
+    # whatever the sweeper derives from them must respect the floor
+    floor_applies = bool(c.get("floor_applies")) or start_sup is None or start_sup >= relay
     prev_rate = None
     for k, e in enumerate(c["events"]):
         for t in (e["published"] or []):
@@ -234,25 +279,138 @@ def pred_pub(c):
             fails += f
             if fee > budget:
                 fails.append("event %d: published tx pays fee %d > budget %d" % (k, fee, budget))
-            if e.get("alive") and "rate" in e:
-                rate = e["rate"]
-                if rate > maxrate:
-                    fails.append("event %d: published at rate %d > MaxFeeRate %d" % (k, rate, maxrate))
-                if prev_rate is not None and rate < prev_rate:
-                    fails.append("event %d: published rate decreased %d -> %d" % (k, prev_rate, rate))
-                prev_rate = rate
-                if e.get("recfee") != fee:
-                    fails.append("event %d: recorded fee %s != in-out %d" % (k, e.get("recfee"), fee))
-        if e.get("alive") and "rate" in e and "end" in e:
+            rate = t.get("rate", e.get("rate") if e.get("alive") else None)
+            if rate is None:
+                continue
+            if rate > maxrate:
+                fails.append("event %d: published at rate %d > MaxFeeRate %d" % (k, rate, maxrate))
+            if rate > ceiling:
+                fails.append("event %d: published at rate %d > ceiling %d" % (k, rate, ceiling))
+            if prev_rate is not None and rate < prev_rate:
+                fails.append("event %d: published rate decreased %d -> %d" % (k, prev_rate, rate))
+            prev_rate = rate
+            recfee = t.get("recfee", e.get("recfee") if e.get("alive") else None)
+            if recfee is not None and recfee != fee:
+                fails.append("event %d: recorded fee %s != in-out %d" % (k, recfee, fee))
+            if floor_applies and relay <= ceiling:
+                if rate < relay:
+                    fails.append("event %d: published at rate %d below relay floor %d (ceiling %d)"
+                                 % (k, rate, relay, ceiling))
+                elif fee < relay * c["weight"] // 1000:
+                    fails.append("event %d: published fee %d below relay-floor fee %d"
+                                 % (k, fee, relay * c["weight"] // 1000))
+        if "rate" in e and "end" in e:
             if e["end"] != ceiling:
                 fails.append("event %d: fee function ceiling %d != min(budget/size, MaxFeeRate) = %d"
                              % (k, e["end"], ceiling))
-            if e["h"] >= c["deadline"] - 1 and e["rate"] != e["end"]:
+            if e.get("alive") and e["h"] >= c["deadline"] - 1 and e["rate"] != e["end"]:
                 fails.append("event %d: height %d >= deadline-1 but rate %d != ceiling %d"
                              % (k, e["h"], e["rate"], e["end"]))
-            if k == 0 and start_sup is None and c["relay"] <= ceiling and conf0 > 1 \
-                    and e["rate"] < c["relay"]:
-                fails.append("initial rate %d below relay floor %d" % (e["rate"], c["relay"]))
+            if k == 0 and e.get("alive") and start_sup is None and relay <= ceiling and conf0 > 1 \
+                    and e["rate"] < relay:
+                fails.append("initial rate %d below relay floor %d" % (e["rate"], relay))
+        if "fstart" in e:
+            fs = e["fstart"]
+            if floor_applies and relay <= ceiling and fs < relay:
+                fails.append("event %d: fee function starts at %d below relay floor %d (ceiling %d)"
+                             % (k, fs, relay, ceiling))
+            if k == 0 and start_sup is None and conf0 > 1:
+                # no explicit start: at least what the estimator says (capped)
+                want = None
+                if conf0 >= 1008:
+                    want = min(relay, ceiling)
+                elif c["ans"] is not None and c["ans"] >= relay:
+                    want = min(c["ans"], ceiling)
+                if want is not None and fs < want:
+                    fails.append("no starting rate supplied, estimator says %s, ceiling %d, but the fee "
+                                 "function starts at %d" % (c["ans"], ceiling, fs))
+    return fails
+
+
+def pred_sw(c, pubs):
+    """Composed history (real UtxoSweeper + aggregator + input set + publisher):
+    clauses that span several BumpRequests.  `pubs` = the pub rows of the same
+    scenario by request id."""
+    fails = []
+    sc = c["scenario"]
+    offers = sc["offers"]
+    hs = [b["h"] for b in c["blocks"]]
+    last_res = {}      # input -> last bump result of a request containing it
+    last_pub = {}      # input -> rate of the last tx handed to PublishTransaction with it
+    last_req = {}      # input -> previous request containing it
+    req_ins = {}
+    for b in c["blocks"]:
+        ev = [("q", q["id"], q) for q in b["reqs"] or []] + [("r", r["id"] + 0.5, r) for r in b["results"] or []]
+        for kind, _, x in sorted(ev, key=lambda t: t[1]):
+            if kind == "q":
+                q = x
+                ins = [i for i in q["ins"] if i >= 0]
+                req_ins[q["id"]] = ins
+                want = sum(offers[i]["budget"] for i in ins)
+                if q["budget"] != want:
+                    fails.append("request %d: budget %d != budgets attached to its inputs %d"
+                                 % (q["id"], q["budget"], want))
+                if q["maxrate"] != sc["maxvb"] * 250:
+                    fails.append("request %d: MaxFeeRate %d != configured %d"
+                                 % (q["id"], q["maxrate"], sc["maxvb"] * 250))
+                for i in ins:
+                    dl = offers[i]["deadline"]
+                    if dl is None:
+                        dl = hs[offers[i]["at"]] + 1008
+                    if dl != q["deadline"]:
+                        fails.append("request %d: deadline %d but input %d has deadline %d"
+                                     % (q["id"], q["deadline"], i, dl))
+                    r = last_res.get(i)
+                    if r and r["event"] == "Failed" and r["rate"] > 0 and \
+                            (q["start"] is None or q["start"] < r["rate"]):
+                        fails.append("request %d retries input %d, whose last attempt failed at %d sat/kw, "
+                                     "from starting rate %s (offered rate decreases)"
+                                     % (q["id"], i, r["rate"], q["start"]))
+                # first tx of this request vs the last tx published with the same inputs
+                p = pubs.get(q["id"])
+                if p:
+                    ceiling = min(go_mulf64_1000_over(p["budget"], p["weight"]), p["maxrate"])
+                    first = None
+                    for e in p["events"]:
+                        for t in e["published"] or []:
+                            if first is None and "rate" in t:
+                                first = t["rate"]
+                    if first is not None:
+                        for i in ins:
+                            if i in last_pub and first < min(last_pub[i], ceiling):
+                                # KNOWN finding C18-F2, and only this mechanism: the input's last
+                                # bump result is a TxFailed issued before a tx existed
+                                # (ErrZeroFeeRateDelta / ErrTxNoOutput, FeeRate 0), the failed request
+                                # had been built from a POSITIVE stored rate for this input, and that
+                                # failure overwrote it with 0 (so this request restarts from the
+                                # estimator).  Any other decrease keeps the generic tag.
+                                r = last_res.get(i)
+                                pq = last_req.get(i)
+                                k = q["ins"].index(i)
+                                overwritten = bool(
+                                    r and pq and r["id"] == pq["id"]
+                                    and r["event"] == "Failed" and r["rate"] == 0 and not r["has_tx"]
+                                    and r["err"] in (2, 6)
+                                    and (pq["in_starts"][pq["ins"].index(i)] or 0) > 0
+                                    and q["in_starts"][k] == 0
+                                    and (q["start"] is None or
+                                         q["start"] < pq["in_starts"][pq["ins"].index(i)]))
+                                tag = "restart-after-no-tx-failure" if overwritten else "rate-decrease-on-retry"
+                                fails.append("[%s] request %d publishes input %d at %d sat/kw, below the %d "
+                                             "it was last published at (new ceiling %d)"
+                                             % (tag, q["id"], i, first, last_pub[i], ceiling))
+                    for e in p["events"]:
+                        for t in e["published"] or []:
+                            if "rate" in t:
+                                for i in ins:
+                                    last_pub[i] = t["rate"]
+                for i in ins:
+                    last_req[i] = q
+            else:
+                for i in req_ins.get(x["id"], []):
+                    last_res[i] = x
+                if x.get("invalid"):
+                    fails.append("publisher sent an invalid BumpResult for request %d" % x["id"])
     return fails
 
 
@@ -273,7 +431,7 @@ def run(ctx):
         cases_env = {"VERIF_SEED": rp.get("seed", ctx.seed), "VERIF_TIER": rp.get("tier", ctx.tier)}
         ctx.note("replaying case %s of seed %s tier %s" % (replay_case, cases_env["VERIF_SEED"],
                                                             cases_env["VERIF_TIER"]))
-    rc, trace, out = run_harness(ctx.uid(), "sweep", ["sweep/verif_fee_test.go"],
+    rc, trace, out = run_harness(ctx.uid(), "sweep", HARNESS,
                                  "^TestVerifFee$", env=cases_env, timeout=1500)
     rows = read_jsonl(trace)
     if replay_case is not None:
@@ -286,6 +444,12 @@ def run(ctx):
     # ---- property predicate on the implementation's own trace ----
     nviol = 0
     pred_fail_idx = set()
+    known_rows = set()
+    sw_by_case = {c["case"]: c for c in rows if c["kind"] == "sw"}
+    pubs_by_case = {}
+    for c in rows:
+        if c["kind"] == "pub" and c.get("via") == "sweeper":
+            pubs_by_case.setdefault(c["case"], {})[c["req"]] = c
     for idx, c in enumerate(rows):
         k = c["kind"]
         if k == "ff":
@@ -303,15 +467,44 @@ def run(ctx):
         elif k == "set":
             fails = pred_set(c)
             thm = "C18_topup"
+        elif k == "sw":
+            fails = pred_sw(c, pubs_by_case.get(c["case"], {}))
+            thm = "C18_retry_start_floor/C18_set_start_max"
         else:
             fails = []
+        if k == "pub" and c.get("via") == "sweeper":
+            thm = "C18_published_trace_ok/C18_retry_start_floor"
         if not fails:
             continue
         pred_fail_idx.add(idx)
-        nviol += 1
-        if nviol <= 4:
-            ctx.violation("impl_violates_predicate", thm, {"case": c, "fails": fails[:8]},
-                          signature="sweep kind=%s %s" % (k, fails[0]))
+        detail = {"case": c, "fails": fails[:8]}
+        if k == "pub" and c.get("via") == "sweeper":
+            # the failing input is the whole history that led to this request
+            detail["history"] = sw_by_case.get(c["case"])
+        kname = "%s%s" % (k, "/sweeper" if c.get("via") else "")
+        # messages carrying a [tag] have a stable signature of their own (one
+        # violation per tag, so that a known finding never hides another failure
+        # of the same row); the rest is reported under the first message
+        tagged, plain = {}, []
+        for m in fails:
+            if m.startswith("["):
+                tagged.setdefault(m[1:m.index("]")], []).append(m)
+            else:
+                plain.append(m)
+        before = len(ctx.violations)
+        all_known = not plain
+        if plain and nviol < 4:
+            ctx.violation("impl_violates_predicate", thm, detail,
+                          signature="sweep kind=%s %s" % (kname, plain[0]))
+        for tag, msgs in tagged.items():
+            sig = "sweep kind=%s C18 %s" % (kname, tag)
+            is_known = any(kf.get("status") == "known" and re.search(kf["match"], sig) for kf in ctx.known)
+            all_known = all_known and is_known
+            if is_known or nviol < 4:
+                ctx.violation("impl_violates_predicate", thm, dict(detail, fails=msgs[:8]), signature=sig)
+        if all_known:
+            known_rows.add(idx)
+        nviol += len(ctx.violations) - before
 
     # ---- correspondence ----
     terms = [case_term(c) for c in rows]
@@ -320,12 +513,16 @@ def run(ctx):
     if not ok:
         ctx.violation("correspondence_mismatch", "Sweep.Exec (model evaluation failed)",
                       {"logs": logs}, signature="model-eval", failing_input=False)
+    # composed histories: a predicate failure of any row of the scenario makes
+    # the scenario (the "sw" row = the whole history) a concrete failing input
+    pred_fail_cases = {rows[i]["case"] for i in pred_fail_idx if rows[i].get("via") or rows[i]["kind"] == "sw"}
     for ci, idxs in bad[:4]:
         c = rows[ci]
         ctx.violation("correspondence_mismatch", "Sweep.Exec.check_case",
                       {"case": c, "disagreeing_observations": idxs},
                       signature="sweep mismatch kind=%s" % c["kind"],
-                      failing_input=(ci in pred_fail_idx))
+                      failing_input=(ci in pred_fail_idx or
+                                     ((c.get("via") or c["kind"] == "sw") and c["case"] in pred_fail_cases)))
     if not pr["ok"] and not ctx.violations:
         ctx.violation("proof_broken", ", ".join(pr["broken"]) or "Sweep build",
                       {"log": pr["log"][-4000:]}, signature="proof", failing_input=False)
@@ -344,8 +541,47 @@ def run(ctx):
                 "21-1007" if cf < 1008 else "1008+" if cf < 2 ** 31 else ">=2^31")
     nobs = 0
     nabove = 0
+    sw_family, sw_backend, sw_results, sw_req_start, sw_in_start, sw_retry = {}, {}, {}, {}, {}, {}
+    sw_first_fail, sw_pubs = {}, {"txs_handed_to_PublishTransaction": 0, "wallet_refused": 0,
+                                  "testmempoolaccept_calls": 0}
+    errname = {0: "ok", 1: "ErrMaxPosition", 2: "ErrZeroFeeRateDelta", 3: "estimator-error",
+               4: "ErrFeePreferenceTooLow", 5: "ErrNotEnoughInputs", 6: "ErrTxNoOutput",
+               7: "ErrNotEnoughBudget", 8: "mempool-other", 10: "publish-refused"}
     for c in rows:
-        bump(kinds, c["kind"])
+        bump(kinds, c["kind"] + ("/sweeper" if c.get("via") else ""))
+        if c["kind"] == "sw":
+            sc = c["scenario"]
+            bump(sw_family, sc["family"])
+            bump(sw_backend, ["neutrino(no testmempoolaccept)", "old-btcd(ErrBackendVersion)",
+                              "scripted-verdicts", "min-relay-enforcing"][sc["backend"]])
+            seen, seen_sets, first = set(), [], True
+            for b in c["blocks"]:
+                for q in b["reqs"] or []:
+                    ins = tuple(sorted(i for i in q["ins"] if i >= 0))
+                    bump(sw_req_start, "None" if q["start"] is None else
+                         "Some(0)" if q["start"] == 0 else "positive")
+                    for st in q["in_starts"]:
+                        bump(sw_in_start, "None" if st is None else "Some(0)" if st == 0 else "positive")
+                    old = [i for i in ins if i in seen]
+                    if old:
+                        bump(sw_retry, "retry-same-set" if ins in seen_sets else "retry-reclustered")
+                    else:
+                        bump(sw_retry, "first-attempt")
+                    seen.update(ins)
+                    seen_sets.append(ins)
+                for r in b["results"] or []:
+                    kname = "%s/%s/%s" % (r["event"], errname.get(r["err"], "err%d" % r["err"]),
+                                          "rate>0" if r["rate"] > 0 else "rate=0")
+                    bump(sw_results, kname)
+                    if first and r["event"] != "Published":
+                        bump(sw_first_fail, kname)
+                    first = False
+            nobs += c["nreq"]
+        if c["kind"] == "pub" and c.get("via"):
+            for e in c["events"]:
+                sw_pubs["txs_handed_to_PublishTransaction"] += len(e["published"] or [])
+                sw_pubs["wallet_refused"] += sum(1 for t in e["published"] or [] if t.get("puberr"))
+                sw_pubs["testmempoolaccept_calls"] += len(e["verdicts"] or [])
         if c["kind"] == "ff" and c["start"] is not None and c["start"] > c["maxr"] and c["conf"] > 1:
             nabove += 1
         if c["kind"] == "pub" and c.get("finding_gen"):
@@ -375,6 +611,7 @@ def run(ctx):
             nobs += 1
     nontriv = [c for c in rows if (c["kind"] == "ff" and c["init"]["err"] == 0 and len(c["ops"]) > 2)
                or (c["kind"] == "pub" and len(c["events"]) > 2)
+               or (c["kind"] == "sw" and c["nreq"] >= 2)
                or (c["kind"] == "tx" and c["err"] in (0, 7))
                or (c["kind"] == "rate") or (c["kind"] == "set" and c["need0"])]
     ctx.cov.update({
@@ -383,11 +620,17 @@ def run(ctx):
         "distinct_nontrivial": distinct_count(
             nontriv, lambda c: {k: v for k, v in c.items() if k != "case"}),
         "rule": "non-trivial = fee function built and >2 ops | publisher case with >2 block events | "
-                "tx case reaching the budget guard | direct feeRateAtPosition grid; distinct by full row",
+                "tx case reaching the budget guard | direct feeRateAtPosition grid | composed sweeper "
+                "history with >=2 BumpRequests; distinct by full row",
         "traces_validated_against_impl": len(rows),
         "case_kinds": kinds, "ff_init": ff_init, "ff_ops": ops, "ff_conf_classes": conf_hist,
         "tx_results": txerr, "publisher_events": pubev, "input_set_topups": sets,
-        "predicate_failures": len(pred_fail_idx),
+        "sweeper_history_families": sw_family, "sweeper_backends": sw_backend,
+        "sweeper_bump_results": sw_results, "sweeper_first_result_when_not_published": sw_first_fail,
+        "sweeper_request_starting_rate": sw_req_start, "sweeper_input_stored_starting_rate": sw_in_start,
+        "sweeper_request_kinds": sw_retry, "sweeper_wallet_calls": sw_pubs,
+        "predicate_failures": len(pred_fail_idx - known_rows),
+        "rows_hitting_known_findings": len(known_rows),
         "start_above_ceiling_regression_cases": nabove,
         "correspondence_mismatches": len(bad),
         "samples": [rows[0]],
